@@ -7,23 +7,33 @@ import common
 import driver
 
 PROPERTIES_FILE = "Properties/Properties_C11.v"
-COQ_DEPS = ["Proofs/Heap_proofs.vo", "Proofs/TimerRun_proofs.vo"]
+COQ_DEPS = ["Proofs/Heap_proofs.vo", "Proofs/TimerRun_proofs.vo", "Proofs/TimerSys_proofs.vo"]
 GEN_MODULES = ["Gen_timer"]
 LEVEL = "proof"
 COQ_TIMEOUT = 2400
 TRUSTED = [
     "Model/Heap.v and Model/TimerRun.v are hand-written; tied by running the library's own static functions "
     "(_dispatch_timer_heap_insert/remove/update, _dispatch_timer_unote_compute_missed, _dispatch_timers_run, "
-    "_dispatch_timers_program, _dispatch_timer_unote_configure/resume/unregister) on the same operation sequences and "
-    "comparing the complete state after every operation",
+    "_dispatch_timers_program, _dispatch_event_loop_drain_timers, _dispatch_timer_unote_configure/resume/unregister, "
+    "_dispatch_timer_config_create, _dispatch_after) on the same inputs / operation sequences and comparing the complete "
+    "state after every operation (white-box harnesses that #include src/event/event.c resp. src/source.c)",
     "the segmented storage of the heap is modelled as a flat map; get_slot's cell computation is modelled separately "
     "(slot_addr), proved injective and in bounds, and compared with the addresses the library computes",
-    "clock readings, the epoll/timerfd delivery of the programmed expiry and the hop of the fired source to its target "
-    "queue are outside the model (the kernel timer is the pair recorded at _dispatch_event_loop_timer_arm/delete)",
+    "clock readings are parameters; in the white-box runs the manager's clock cache is faked, in the end-to-end runs the "
+    "handlers read the real clocks (CLOCK_MONOTONIC / CLOCK_BOOTTIME / CLOCK_REALTIME)",
+    "the epoll/timerfd delivery of the programmed expiry (modelled as the step SExpire that may happen at any time) and the "
+    "hop of the fired source to its target queue are outside the model; kernel_expired (_dispatch_event_merge_timer, static in "
+    "event_epoll.c) is modelled by reading, not tied",
+    "the guards of the system theorems (resume only when no data is pending, values set before activation, ...) are my "
+    "reading of the callers in src/source.c",
+    "run / pass termination: the theorems about _dispatch_timers_run and _dispatch_event_loop_drain_timers are about calls "
+    "that leave their loops (a boolean of the fuel-indexed model functions); that the model's fuel always suffices is checked "
+    "on every correspondence run, not proved",
 ]
-ASSUMPTIONS = ["fewer than 2^30 timers per heap (index arithmetic is 32 bit)",
-               "clock values and targets below 2^63 (enforced by _dispatch_timer_config_create / dispatch_time encoding)",
-               "the manager thread runs _dispatch_event_loop_drain_timers when the programmed timerfd expires (kernel)"]
+ASSUMPTIONS = ["at most 2^30 - 12 timer records (N with 2N + 2 <= capacity of 29 heap segments); index arithmetic is 32 bit",
+               "clock values below 2^62 - 1 (Model/Time.v clocks_ok, as for C12) resp. below 2^63 for cached readings",
+               "the manager thread runs _dispatch_event_loop_drain_timers whenever the dirty bits are set and when the programmed "
+               "timerfd expires (kernel, scheduler)"]
 
 U64 = 1 << 64
 I63 = (1 << 63) - 1
@@ -499,8 +509,16 @@ def gen_tseq(rng, nt, length):
             else:
                 now += rng.choice([0, 1, 3, 10, 50, 200])
             lines.append("R %d %d" % (rng.below(3), now))
-        elif k < 45:
+        elif k < 38:
             lines.append("P %d %d" % (rng.below(3), now))
+        elif k < 45:
+            ahead = [m for m in marks if m[1] >= now and m[0] <= now + 300 and m[1] <= now + 1000]
+            if ahead and rng.chance(1, 2):
+                m = rng.choice(ahead)
+                now = max(now, rng.choice([m[0], m[1], (m[0] + m[1]) // 2]))
+            else:
+                now += rng.choice([0, 1, 10, 100])
+            lines.append("W %d %d %d" % (now, now + rng.below(3), now + rng.below(3)))
         elif k < 60 and not after:
             tg, dl, itv = values()
             clock = rng.below(3)
@@ -526,11 +544,13 @@ def gen_tseq(rng, nt, length):
         now += 1000
         lines.append("R %d %d" % (i, now))
         lines.append("P %d %d" % (i, now))
+    lines.append("W %d %d %d" % (now + 500, now + 500, now + 500))
     return lines
 
 
 def parse_state(tokens, nt):
     """-> (heaps: list of (count,np,armed,min0,min1), timers: list of tuples(armed ident tg dl itv pending e0 e1 cfg))"""
+    tokens = tokens[1:]      # dirty bit
     heaps = [tuple(tokens[5 * i:5 * i + 5]) for i in range(3)]
     rest = tokens[15:]
     w = len(rest) // nt if nt else 0
@@ -540,7 +560,21 @@ def parse_state(tokens, nt):
 
 def impl_line_to_list(line, nt):
     """canonical int list of a harness output line of the state machine protocol (same shape as the model's)"""
-    if line.startswith("E") or line.startswith("P"):
+    if line.startswith("W"):
+        evs, calls, state = line.split("#")
+        out = []
+        for tk in evs[1:].split():
+            a, b = tk.split(":")
+            out += [int(a), int(b)]
+        out.append(-1)
+        for tk in calls.split():
+            parts = tk.split(":")
+            out += [1, int(parts[1]), int(parts[2]), int(parts[3])] if parts[0] == "arm" else [0, int(parts[1]), 0, 0]
+        out.append(-1)
+        state = state.strip()
+        out.append(int(state.split()[0]))
+        state = " ".join(state.split()[1:])
+    elif line.startswith("E") or line.startswith("P"):
         head, state = line.split("#")
         toks = head[1:].split()
         out = []
@@ -558,7 +592,7 @@ def impl_line_to_list(line, nt):
         out, state = [], line
     if "|" in state:
         hs, ts = state.split("|")
-        ht = [int(x) for x in hs.split()]
+        ht = [int(x) for x in hs.split()]      # dirty, then 5 per heap
         tt = [int(x) for x in ts.split()]
         flat = list(ht)
         for i in range(nt):
@@ -573,6 +607,7 @@ def judge_tseq(lines, out, nt):
     outs = iter(out)
     last_state = None
     cfg, expect = {}, None
+    prog = {}
     for ln in lines:
         c = ln[0]
         if c == "c":
@@ -581,10 +616,34 @@ def judge_tseq(lines, out, nt):
         if c == "f":
             t = int(ln[1:].split()[0])
             expect = (t, cfg.get(t))
-        if c not in "RPSl":
+        if c not in "RPSlW":
             continue
         o = next(outs)
         if c == "l":
+            continue
+        if c == "W":
+            nows = [int(x) for x in ln[1:].split()]
+            lst = impl_line_to_list(o, nt)
+            k1 = lst.index(-1)
+            k2 = lst.index(-1, k1 + 1)
+            calls = lst[k1 + 1:k2]
+            for j in range(0, len(calls), 4):
+                prog[calls[j + 1]] = calls[j + 2] if calls[j] == 1 else None
+            dirty = lst[k2 + 1]
+            heaps, timers = parse_state(lst[k2 + 2:], nt)
+            if dirty:
+                fails.append({"key": "drain-dirty", "what": "_dispatch_event_loop_drain_timers returned with dirty bits set"})
+            for tidx in range(3):
+                mem = [(t[2], i + 1) for i, t in enumerate(timers) if t[0] == 1 and t[1] == tidx]
+                due = [i for tg, i in mem if tg <= nows[tidx]]
+                if due:
+                    fails.append({"key": "drain-fixpoint", "what": "after the manager's timer pass at now=%d timer(s) %s of clock %d are armed with target <= now" % (nows[tidx], due, tidx)})
+                if mem:
+                    mn = min(tg for tg, _ in mem)
+                    if heaps[tidx][1] != 0 or heaps[tidx][2] != 1 or prog.get(tidx) != mn:
+                        fails.append({"key": "drain-programmed", "what": "after the manager's timer pass clock %d has armed timers with minimum target %d but needs_program=%d, kernel timer armed=%d, last programmed expiry %s"
+                                      % (tidx, mn, heaps[tidx][1], heaps[tidx][2], prog.get(tidx))})
+            last_state = (heaps, timers)
             continue
         if c == "S":
             last_state = parse_state(impl_line_to_list(o, nt), nt)
@@ -621,6 +680,8 @@ def judge_tseq(lines, out, nt):
                         fails.append({"key": "count-bound", "what": "timer %d reported %d intervals at now=%d but its next target is %d (interval %d)" % (t, cnt, now, tm[2], tm[4])})
         if c == "P" and k > 0:
             calls = lst[:k]
+            for j in range(0, len(calls), 4):
+                prog[calls[j + 1]] = calls[j + 2] if calls[j] == 1 else None
             mins = [t[2] for t in timers if t[0] == 1 and t[1] == tidx]
             if calls[0] == 1:
                 if not mins or calls[2] != min(mins):
@@ -726,9 +787,23 @@ def correspond(ctx):
     nseq = 12 if quick else 300
     nstate = 0
     nfires = narm = ndel = 0
-    for si in range(nseq):
-        nt = rng.choice([3, 5, 8, 20])
-        lines = gen_tseq(rng, nt, rng.choice([40, 120, 300]))
+    corpus = [
+        # a due timer changes clock while the manager's pass has already run the heap it moves to: the pass must go round again
+        (2, ["N 2", "t 1 8", "c 1 2 100 100 1000", "g 1", "r 1", "t 2 0", "c 2 0 5000 5000 7", "g 2", "r 2",
+             "c 1 0 50 50 1000", "W 200 200 200", "S", "W 3000 3000 3000", "W 5000 5000 5000"]),
+        (2, ["N 2", "t 1 4", "c 1 1 100 100 10", "g 1", "r 1", "c 1 0 199 199 10", "W 200 200 200", "l 1 200", "r 1", "W 260 260 260"]),
+        # set_timer on a disarmed timer with a latched fire (the seeded C11-1 shape)
+        (1, ["N 1", "t 1 0", "c 1 0 100 100 18446744073709551615", "g 1", "r 1", "W 150 150 150", "c 1 0 9000 9000 18446744073709551615",
+             "f 1", "S", "l 1 160", "r 1", "W 170 170 170", "W 9001 9001 9001"]),
+        (1, ["N 1", "t 1 0", "c 1 0 100 100 10", "g 1", "r 1", "s 1 1", "W 150 150 150", "c 1 0 9000 9100 10", "f 1", "S", "s 1 0",
+             "l 1 160", "r 1", "W 170 170 170"]),
+    ]
+    for si in range(len(corpus) + nseq):
+        if si < len(corpus):
+            nt, lines = corpus[si]
+        else:
+            nt = rng.choice([3, 5, 8, 20])
+            lines = gen_tseq(rng, nt, rng.choice([40, 120, 300]))
         out, mout, err = run_both(exe, mexe, lines)
         if out is None:
             mism.append({"what": "harness run failed (state machine)", "detail": {"err": err, "lines": lines[:400]}})
@@ -736,7 +811,7 @@ def correspond(ctx):
         if len(out) != len(mout):
             mism.append({"what": "state machine: different number of answers", "detail": {"impl": len(out), "model": len(mout)}})
             continue
-        cmds = [l for l in lines if l[0] in "RPSl"]
+        cmds = [l for l in lines if l[0] in "RPSlW"]
         for l in out:
             if l.startswith("E"):
                 nfires += len(l.split("#")[0].split()) - 1 + (1 if len(l.split("#")[0]) > 1 and l[1] != " " else 0)
@@ -746,7 +821,7 @@ def correspond(ctx):
             mi = [int(x) for x in m.split()]
             li = impl_line_to_list(l, nt)
             nstate += 1
-            if cmds[i][0] == "R":
+            if cmds[i][0] in "RW":
                 if mi[0] != 1:
                     mism.append({"what": "model of _dispatch_timers_run ran out of fuel", "detail": {"cmd": cmds[i]}})
                 mi = mi[1:]
@@ -762,7 +837,7 @@ def correspond(ctx):
         if si == 0:
             samples.append({"state_machine_commands": lines[:12], "impl_answer": out[0][:160]})
     evals += nstate
-    dist["state_machine_sequences"] = nseq
+    dist["state_machine_sequences"] = nseq + len(corpus)
     dist["state_machine_answers_compared"] = nstate
     dist["state_machine_fire_events"] = nfires
     dist["state_machine_kernel_arm_calls"] = narm
